@@ -169,13 +169,19 @@ def run_item(item, ctx, host_case=None):
             ctx.count('mulmode:' + what)
             if what == 'KARATSUBA' and (max(n, m) >= 20 or max(n, m) == 18):
                 ctx.count('reach:karatsuba_recursive')
-            ar.generate_mul(n, m, type=ar.MulMode[what], big_endian=be)
+            g = ar.generate_mul(n, m, type=ar.MulMode[what], big_endian=be)
+            if n * m <= 64:
+                A.own_and_edit(g, random.Random(n * 100 + m))
+                ar.generate_mul(n, m, type=ar.MulMode[what], big_endian=be)
         elif what == 'square':
             if n >= 48 and n not in (49, 53):
                 ctx.count('reach:square_split')
             ar.generate_square(n, type=ar.SquareMode.DEFAULT, big_endian=be)
         elif what == 'square_pow2':
-            ar.generate_square(n, type=ar.SquareMode.POW2_M1, big_endian=be)
+            g = ar.generate_square(n, type=ar.SquareMode.POW2_M1, big_endian=be)
+            if n <= 8:
+                A.own_and_edit(g, random.Random(n))
+                ar.generate_square(n, type=ar.SquareMode.POW2_M1, big_endian=be)
         elif what in ('add_square', 'add_square_pow2_m1'):
             host = netgen.from_description(host_case['host'])
             with monitor.suspended():
